@@ -1,5 +1,6 @@
 import BigtreeModel.Proto
 import BigtreeModel.Helper
+import BigtreeModel.HelperDiff
 /-! Driver handler for property C15 (get_tree_diff).
 
 `sep=<x> only=<0|1> attrs=<x,x,…|-> T <tree> U <tree>`
